@@ -56,9 +56,9 @@ package trie
 //@     && forall(t, 0, nI(st), t < nB(st) ==> !is_short(st, t), at)
 //@     && forall(t, 0, nI(st), is_short(st, t) ==> nS(st) >= 1, at)
 
-// shortbm(st, t): the 17-bit logical label bitmap of short inner node t, i.e. by definition the table entry getNode
-// loads into qr.bm (naming clause of getNode; the bit extraction itself is covered by its panic#/assert obligations)
-//@ spec shortbm(st *SlimTrie, t int) uint64
+// shortbm(st, t): the 17-bit logical label bitmap of short inner node t: the ShortTable entry selected by the
+// ShortSize bits stored at the node's bit position in the inner bitmap (getNode proves that this is what it loads)
+//@ define shortbm(st *SlimTrie, t int) = u64(st.inner.ShortTable[int(bits_at(INW(st), from_of(st, t), nS(st)))])
 
 // tree clauses: leaf ordinals, breadth-first child order, child bound of short nodes, empty label leads to a leaf
 //@ predicate wf_tree(st *SlimTrie) = true
@@ -84,6 +84,9 @@ package trie
 
 //@ predicate wf_leaves(st *SlimTrie) = st.inner.Leaves == nil || (wf_vlen(st.inner.Leaves) && int(st.inner.Leaves.N) == nL(st))
 
+// bit length of the k-th stored inner prefix (bitstr encoding: the last byte holds the number of used bits as a mask)
+//@ define iplen(st *SlimTrie, k int) = 8*(select1(st.inner.InnerPrefixes.PositionBM.Words, k+1) - select1(st.inner.InnerPrefixes.PositionBM.Words, k)) - 16
+//@     + popcnt8(st.inner.InnerPrefixes.Bytes[select1(st.inner.InnerPrefixes.PositionBM.Words, k+1) - 1])
 //@ predicate wf_iprefix(st *SlimTrie) = st.inner.InnerPrefixes != nil
 //@     && (st.inner.InnerPrefixes.EltCnt > 0 ==> wf_r128(st.inner.InnerPrefixes.PresenceBM)
 //@          && nI(st) <= 64*len(st.inner.InnerPrefixes.PresenceBM.Words)
@@ -91,10 +94,7 @@ package trie
 //@          && (st.inner.InnerPrefixes.PositionBM == nil ==> len(st.inner.InnerPrefixes.Bytes) == 2*int(st.inner.InnerPrefixes.EltCnt))
 //@          && (st.inner.InnerPrefixes.PositionBM != nil ==> wf_pos(st.inner.InnerPrefixes.PositionBM, int(st.inner.InnerPrefixes.EltCnt), st.inner.InnerPrefixes.Bytes)
 //@                && len(st.inner.InnerPrefixes.Bytes) <= 100000000
-//@                && forall(k, 0, int(st.inner.InnerPrefixes.EltCnt), bitstr_len(st.inner.InnerPrefixes.Bytes[
-//@                       select1(st.inner.InnerPrefixes.PositionBM.Words, k) : select1(st.inner.InnerPrefixes.PositionBM.Words, k+1)]) % 4 == 0, at)
-//@                && forall(k, 0, int(st.inner.InnerPrefixes.EltCnt), bitstr_len(st.inner.InnerPrefixes.Bytes[
-//@                       select1(st.inner.InnerPrefixes.PositionBM.Words, k) : select1(st.inner.InnerPrefixes.PositionBM.Words, k+1)]) >= 0, at)))
+//@                && forall(k, 0, int(st.inner.InnerPrefixes.EltCnt), iplen(st, k) % 4 == 0 && iplen(st, k) >= 0, at)))
 
 // ---------------------------------------------------------------------------
 // query primitives
@@ -179,10 +179,19 @@ package trie
 //@   at "bm = (w >> uint32(j)) & vars.ShortMask" assert (bm & ^mask(nS(st))) == 0
 //@   at "bm = (w >> uint32(j)) | (w2" assert (bm & ^mask(nS(st))) == 0
 //@   before "w2 := ns.Inners.Words[qr.to>>6]" use straddle(int(qr.from), nS(st), len(INW(st)))
-//@   before "qr.bm = uint64(ns.ShortTable[bm])" use u2i_le_mask(bm, nS(st))
-//@   at "qr.innerPrefixLen = bitstr.Len(qr.innerPrefix)" use bitstr_len_cong(qr.innerPrefix, st.inner.InnerPrefixes.Bytes[
+//@   before "qr.bm = uint64(" use u2i_le_mask(bm, nS(st))
+//@   at "bm = (w >> uint32(j)) & " use bits_at_def(INW(st), int(qr.from), nS(st))
+//@   at "bm = (w >> uint32(j)) | " use bits_at_def(INW(st), int(qr.from), nS(st))
+//@   at "bm = (w >> uint32(j)) | " assert int(qr.to)/64 == int(qr.from)/64 + 1
+//@   at "bm = (w >> uint32(j)) & " assert bm == bits_at(INW(st), int(qr.from), nS(st))
+//@   at "bm = (w >> uint32(j)) | " assert bm == bits_at(INW(st), int(qr.from), nS(st))
+//@   after Rank128#1 assert 0 <= result0 && int(result0) == rank1(st.inner.InnerPrefixes.PresenceBM.Words, qr.ithInner) && int(result0) < int(st.inner.InnerPrefixes.EltCnt)
+//@   after Select32R64#1 assert int(result0) == select1(st.inner.InnerPrefixes.PositionBM.Words, int(ithPref)) && int(result1) == select1(st.inner.InnerPrefixes.PositionBM.Words, int(ithPref) + 1)
+//@   at "qr.innerPrefix = ips.Bytes[from:to]" assert sameslice(qr.innerPrefix, st.inner.InnerPrefixes.Bytes[
 //@       select1(st.inner.InnerPrefixes.PositionBM.Words, rank1(st.inner.InnerPrefixes.PresenceBM.Words, qr.ithInner)) :
 //@       select1(st.inner.InnerPrefixes.PositionBM.Words, rank1(st.inner.InnerPrefixes.PresenceBM.Words, qr.ithInner) + 1)])
+//@   at "qr.innerPrefixLen = bitstr.Len(qr.innerPrefix)" assert int(qr.innerPrefixLen) == iplen(st, rank1(st.inner.InnerPrefixes.PresenceBM.Words, qr.ithInner))
+//@   at "qr.innerPrefixLen = bitstr.Len(qr.innerPrefix)" use at(rank1(st.inner.InnerPrefixes.PresenceBM.Words, qr.ithInner))
 //@   at "qr.innerPrefixLen = bitstr.Len(qr.innerPrefix)" assert qr.innerPrefixLen%4 == 0
 //@   at "qr.innerPrefixLen = bitstr.Len(qr.innerPrefix)" assert 0 <= qr.innerPrefixLen && qr.innerPrefixLen <= 800000000
 //@   after Rank128#1 use at(result0, result0 + 1)
@@ -200,7 +209,7 @@ package trie
 //@       int(qr.innerPrefixLen) == decstep(st.inner.InnerPrefixes.Bytes, 2*rank1(st.inner.InnerPrefixes.PresenceBM.Words, qr.ithInner))
 //@   ensures qr.hasInnerPrefix ==> len(qr.innerPrefix) >= 1 && int(qr.innerPrefixLen) == bitstr_len(qr.innerPrefix)
 //@   ensures qr.hasInnerPrefix ==> qr.innerPrefixLen%4 == 0 && 0 <= qr.innerPrefixLen && qr.innerPrefixLen <= 800000000
-//@   defines qr.isInner == 1 && is_short(st, int(qr.ithInner)) ==> qr.bm == shortbm(st, int(qr.ithInner))
+//@   ensures qr.isInner == 1 && is_short(st, int(qr.ithInner)) ==> qr.bm == shortbm(st, int(qr.ithInner))
 //@   ensures qr.hasInnerPrefix ==> sameslice(qr.innerPrefix, st.inner.InnerPrefixes.Bytes[
 //@       select1(st.inner.InnerPrefixes.PositionBM.Words, rank1(st.inner.InnerPrefixes.PresenceBM.Words, qr.ithInner)) :
 //@       select1(st.inner.InnerPrefixes.PositionBM.Words, rank1(st.inner.InnerPrefixes.PresenceBM.Words, qr.ithInner) + 1)])
